@@ -945,7 +945,7 @@ pub fn run(args: &[String], mode: Mode) -> ! {
             name,
             rule,
             cases_quick: 240,
-            cases_thorough: 8000,
+            cases_thorough: 4000,
             shards: 12,
             min_nontrivial: floor,
             max_shrink_iters: 60,
